@@ -1517,7 +1517,12 @@ piecePutMixed(MxMem *mi)
 		mi = prev;
 	}
 
-	/* 3. Add piece to piece tree. */
+	/* 3. Add piece to piece tree.
+	 *    Linking may need a page, so may run the collector: the piece
+	 *    must not look free while it is not in the tree.  (If prev was
+	 *    merged, mi is prev, which still carries its flag.)
+	 */
+	mi->isFree = false;
 	mxmemLink(mi);
 
 	/* 4. We're free */
@@ -1563,8 +1568,14 @@ pieceGetMixed(ULong nbytes)
 		IF (shdSplit1(mn, nbytes)) {
 			ULong r = mi->nbytesThis - nbytes;
 
+			/*
+			 * The remainder is not flagged free until it is in
+			 * the piece tree: linking it may need a page, which
+			 * may run the collector, whose sweep unlinks every
+			 * free neighbour of the pieces it frees.
+			 * (mxmemSplit copies the flag from mi: false.)
+			 */
 			mt = mxmemSplit(mi,shdBe1(mn, nbytes));
-			mt->isFree = true;
 			bnode1 = !is1 ? 0 : btreeSearchGE(mixedPieces,r,&bix1);
 
 			IF (!is1) {
@@ -1583,6 +1594,7 @@ pieceGetMixed(ULong nbytes)
 				dll->pieces = mt;
 				mt->body.free.linkA = mt->body.free.linkB = 0;
 				mt->body.free.dll   = dll;
+				mt->isFree	    = true;
 			}
 		}
 		else IF (is1) {
